@@ -127,10 +127,14 @@ func (n *Nat) EuclideanDivVarTime(remainder, numerator, denominator *Nat) ct.Boo
 	nn := (*saferith.Nat)(numerator)
 	dd := saferith.ModulusFromNat((*saferith.Nat)(denominator))
 
+	// The quotient capacity is never negative: when the denominator is much longer than the numerator the quotient
+	// is zero (a negative capacity makes saferith derive a negative size, and the remainder computation below then
+	// overwrites the denominator operand).
+	qCap := max(0, min(numerator.AnnouncedLen(), numerator.AnnouncedLen()-dd.BitLen()+2))
 	var qq saferith.Nat
-	qq.Div(nn, dd, -1)
+	qq.Div(nn, dd, qCap)
 	((*saferith.Nat)(n)).SetNat(&qq)
-	((*saferith.Nat)(n)).Resize(min(numerator.AnnouncedLen(), numerator.AnnouncedLen()-dd.BitLen()+2))
+	((*saferith.Nat)(n)).Resize(qCap)
 	if remainder != nil {
 		var rr saferith.Nat
 		rr.Mul((*saferith.Nat)(denominator), &qq, -1)
